@@ -1,5 +1,6 @@
 #!/usr/bin/env bash
-# usage: tools/with_seed.sh <patch-file> <Cxx> [tier]   applies the patch to /repo under the exclusive
+# usage: tools/with_seed.sh <patch-file> <Cxx> [quick|thorough|fuzz]  (fuzz = only the libFuzzer stage)
+#   applies the patch to /repo under the exclusive
 # repo lock, runs the check (built into a private target dir so concurrently running checks keep
 # their binaries), reverts /repo, releases the lock.
 PATCH="$(readlink -f "$1")"; P="$2"; TIER="${3:-quick}"
@@ -10,7 +11,7 @@ git -C /repo apply --check "$PATCH" || { echo "patch does not apply"; exit 2; }
 git -C /repo apply "$PATCH"
 # the evidence file is rewritten by every run: keep the one from the unchanged tree
 EV="$HERE/evidence/$P.json"; [ -f "$EV" ] && cp "$EV" "$EV.keep"
-DVCHECK_REPO_LOCK_HELD=1 "$HERE/run.sh" "$P" "$TIER"; code=$?
+if [ "$TIER" = fuzz ]; then DVCHECK_REPO_LOCK_HELD=1 "$HERE/tools/fuzz_stage.sh" "$P"; code=$?; else DVCHECK_REPO_LOCK_HELD=1 "$HERE/run.sh" "$P" "$TIER"; code=$?; fi
 [ -f "$EV.keep" ] && mv "$EV.keep" "$EV"
 git -C /repo checkout -- . ; git -C /repo status --short | grep -v '^??' | head -3
 flock -u 8
